@@ -70,6 +70,8 @@ pub proof fn lemma_shl_is_pow2(k: usize)
     if k == 0 { assert((1usize << 0usize) == 1) by (bit_vector); }
     else { lemma_shl_is_pow2((k - 1) as usize); let j = (k - 1) as usize; assert(j < 63 ==> (1usize << ((j + 1) as usize)) == 2 * (1usize << j)) by (bit_vector); }
 }
+/// the lookup contexts are those the AIRs declare and every AIR with preprocessed columns is listed in matrix_to_instance (native verify_all_tables rebuilds both from the AIRs)
+pub uninterp spec fn common_data_is_the_one_the_airs_give<A>(airs: Seq<A>, c: &CommonDataTargets) -> bool;
 pub open spec fn pre_w_of(c: &CommonDataTargets, i: int) -> nat {
     match c.preprocessed { Some(g) => match g.instances.instances@[i] { Some(m) => m.width as nat, None => 0 }, None => 0 }
 }
@@ -175,6 +177,10 @@ def build():
     v.requires('zk_flag', 'config.zk <= 1')
     v.ensures('ok_iff_well_formed', f'ret is Ok <==> batch_shape_ok(airs@, proof_targets, public_values@, common, {ZK})')
     v.ensures('H_the_common_datas_preprocessed_widths_are_the_airs_own', 'ret is Ok ==> forall|i: int| 0 <= i < airs@.len() ==> pre_w_of(common, i) == (#[trigger] airs@[i]).sp_prep_width()')
+    # open finding (round 17): the lookup contexts (constraints, aux width, challenge layout) and the list of instances opened against the preprocessed commitment come from the companion common data,
+    # which on the recursion path is the PROOF's own stark_common: emptied lookup contexts / a shortened matrix_to_instance (with the openings adjusted) build a circuit that never evaluates that table's
+    # lookup argument / never opens that instance's preprocessed columns
+    v.ensures('H_the_lookup_contexts_and_the_preprocessed_instance_list_are_the_rebuilt_airs_own', 'ret is Ok ==> common_data_is_the_one_the_airs_give(airs@, common)')
     v.ensures('malformed_is_invalid_proof_shape_or_randomization_error', 'ret matches Err(e) ==> (e is InvalidProofShape || e is RandomizationError)')
     FND = 'for f_ in 0..global.matrix_to_instance.len()'
     A0 = 'for a0_ in 0..instances.len()'
